@@ -43,11 +43,18 @@ fn on_alloc(size: usize) {
             // first offender of this window: remember where it came from
             let already = TRACE.lock().map(|g| g.is_some()).unwrap_or(true);
             if !already {
+                // what the capture itself allocates and keeps (the symboliser caches the parsed
+                // debug information, tens of MB) is the harness's memory, not the library's:
+                // move the baseline by whatever stays live
+                let before = LIVE.load(Relaxed);
                 let bt = std::backtrace::Backtrace::force_capture();
                 let frame = crate::panicx::frame_from_backtrace(&format!("{bt}"));
                 if let Ok(mut g) = TRACE.lock() {
                     *g = Some((size, frame));
                 }
+                let kept = LIVE.load(Relaxed).saturating_sub(before);
+                BASE.fetch_add(kept, Relaxed);
+                PEAK.fetch_add(kept, Relaxed);
             }
             IN_CAPTURE.store(false, Relaxed);
         }
